@@ -25,6 +25,9 @@ CONSTANTS NP, NC,            \* number of parents / children; objects are named 
           Acts,              \* enabled action names
           InitMode,          \* "empty" | "loaded" | "both"
           AllowDup,          \* Append/Insert of a child that is already in the list
+          Kind,              \* collection class of P.children: "list" | "set" | "dict" (attribute_keyed_dict on the child's key).  The abstract
+                             \* state is the same sequence of members (dict: insertion order, set: order irrelevant); the kind selects the
+                             \* mutator vocabulary of the M* actions below, whose third argument names the Python mutator the driver calls
           Uni,               \* unidirectional mapping: only P.children exists (no C.parent, no backref, no many-to-one processor); a child
                              \* may then sit in two lists at once and a move is two explicit steps (append to the new, remove from the old)
           MaxDepth
@@ -166,6 +169,15 @@ RECURSIVE ReverseFrom(_, _, _, _)
 ReverseFrom(s, p, orig, k) ==      \* k = 1..Len(orig): slot Len-k+1 receives orig[k]
    IF k > Len(orig) THEN s ELSE ReverseFrom(SetItemAt(s, p, Len(orig) - k + 1, orig[k], FALSE), p, orig, k + 1)
 DoReverse(s, p) == R(ReverseFrom(s, p, s.coll[p], 1), "ok")
+\* clear(): one remove event per member, then the collection is emptied
+RECURSIVE ClearAll(_, _)
+ClearAll(s, p) == IF s.coll[p] = <<>> THEN s ELSE ClearAll(RemoveAt(s, p, 1, FALSE), p)
+\* mutator vocabulary per collection kind (every name is one Python call; the effect on the abstract state is the same within a row)
+AddHows == IF Kind = "set" THEN {"add", "update", "ior"} ELSE IF Kind = "dict" THEN {"setitem", "setdefault", "update"} ELSE {"append"}
+RemHows == IF Kind = "set" THEN {"remove", "discard", "isub"} ELSE IF Kind = "dict" THEN {"delitem", "pop", "popdefault"} ELSE {"remove"}
+\* calls that name a member which is NOT in the collection: set.discard(c) does nothing at all; dict.pop(k, default) still announces a
+\* removal first (fire_pre_remove_event), which flags the owner as modified without any history
+NoopHows == IF Kind = "set" THEN {"discard"} ELSE IF Kind = "dict" THEN {"popdefault"} ELSE {}
 FirstIdx(q, x) == CHOOSE i \in 1..Len(q) : q[i] = x /\ \A j \in 1..(i-1) : q[j] # x
 DoSetParent(s, c, np) ==
    LET old == s.parent[c]
@@ -299,6 +311,16 @@ SetItemA == Enabled("SetItem") /\ \E p \in Ps : \E i \in 1..Len(st.coll[p]) : \E
                                  /\ Step("SetItem", <<p, i - 1, c>>, R(SetItemAt(st, p, i, c, TRUE), "ok"), {})
 ReverseA == Enabled("Reverse") /\ \E p \in Ps : Len(st.coll[p]) >= 2 /\ Cardinality(Range(st.coll[p])) = Len(st.coll[p])
                                  /\ Step("Reverse", <<p>>, DoReverse(st, p), {})
+MAddA == Enabled("MAdd") /\ \E p \in Ps, c \in Cs : c \notin Range(st.coll[p]) /\ \E h \in AddHows :
+                                 Step("MAdd", <<p, c, h>>, R(AppendAt(st, p, c, Len(st.coll[p])), "ok"), {})
+MRemA == Enabled("MRem") /\ \E p \in Ps, c \in Cs : c \in Range(st.coll[p]) /\ \E h \in RemHows :
+                                 Step("MRem", <<p, c, h>>, R(RemoveAt(st, p, FirstIdx(st.coll[p], c), h \in {"pop", "popdefault"}), "ok"), {})
+\* dict.popitem() takes the member inserted last; set.pop() takes an arbitrary member, so it is taken only from a one-member set
+MPopA == Enabled("MPop") /\ \E p \in Ps : (IF Kind = "set" THEN Len(st.coll[p]) = 1 ELSE Len(st.coll[p]) >= 1) /\ Kind # "list"
+                                 /\ Step("MPop", <<p>>, R(RemoveAt(st, p, Len(st.coll[p]), TRUE), "ok"), {})
+MClearA == Enabled("MClear") /\ \E p \in Ps : Len(st.coll[p]) >= 1 /\ Step("MClear", <<p>>, R(ClearAll(st, p), "ok"), {})
+MNoopA == Enabled("MNoop") /\ \E p \in Ps, c \in Cs : c \notin Range(st.coll[p]) /\ \E h \in NoopHows :
+                                 Step("MNoop", <<p, c, h>>, R(IF h = "popdefault" THEN [st EXCEPT !.mod = @ \cup {p}] ELSE st, "ok"), {})
 RemoveA == Enabled("Remove") /\ \E p \in Ps, c \in Cs : c \in Range(st.coll[p])
                                  /\ Step("Remove", <<p, c>>, R(RemoveAt(st, p, FirstIdx(st.coll[p], c), FALSE), "ok"), {})
 PopA == Enabled("Pop") /\ \E p \in Ps : Len(st.coll[p]) > 0 /\ \E i \in {0, Len(st.coll[p]) - 1} :
@@ -315,7 +337,7 @@ InitStates == (IF InitMode \in {"empty", "both"} THEN {NewSt} ELSE {})
               \cup (IF InitMode \in {"loaded", "both"} THEN {Reload(Ps, LoadedDbc, LoadedDbv)} ELSE {})
               \cup (IF InitMode = "half" THEN {Reload({PAll[1]}, HalfDbc, [c \in Cs |-> IF HalfDbc[c] = "absent" THEN "absent" ELSE "v0"])} ELSE {})
 Init == st \in InitStates /\ last = [a |-> "init", arg |-> <<>>, ret |-> "ok", dml |-> {}]
-Next == SetItemA \/ ReverseA \/ SetValA \/ Add \/ Delete \/ Expunge \/ AppendA \/ InsertA \/ RemoveA \/ PopA \/ ReplaceA \/ SetParentA \/ FlushA \/ CommitReloadA
+Next == MAddA \/ MRemA \/ MPopA \/ MClearA \/ MNoopA \/ SetItemA \/ ReverseA \/ SetValA \/ Add \/ Delete \/ Expunge \/ AppendA \/ InsertA \/ RemoveA \/ PopA \/ ReplaceA \/ SetParentA \/ FlushA \/ CommitReloadA
 Spec == Init /\ [][Next]_vars
 View == st
 Obs(s) == [hist |-> Hist(s), pidhist |-> PidHist(s), valhist |-> ValHist(s), insess |-> {o \in Objs : InSess(s, o)}]
@@ -375,7 +397,7 @@ AddReachesClosure == [][(last'.a = "Add" /\ last'.ret = "ok" /\ ~st'.dead) => \A
 \* a direct append / insert to an in-session parent pulls a non-member child in (cascade on the operated attribute only) ...
 PulledIn(c) == last'.a \in {"Append", "Insert"} /\ "save-update" \in Casc /\ InSess(st, last'.arg[1]) /\ c = last'.arg[Len(last'.arg)]
 \* ... and re-association never throws a session member out of the session
-Reassoc(c) == last'.a \in {"Append", "Insert", "SetParent", "Replace", "SetItem", "Reverse"} /\ ~st'.dead /\ st'.parent[c] # None
+Reassoc(c) == last'.a \in {"Append", "Insert", "SetParent", "Replace", "SetItem", "Reverse", "MAdd"} /\ ~st'.dead /\ st'.parent[c] # None
 \* carve-out = the confirmed defect (DESIGN 6, C39): under delete-orphan a child without a row that is moved away from an old parent is
 \* expunged by the backref's removal from that parent although it is being re-associated
 OrphanMove(c) == DOrph /\ ~HasKey(st, c) /\ st.parent[c] \notin {None, st'.parent[c]}
